@@ -6,6 +6,9 @@ from ..ob import Result, mval
 from .. import lib
 
 
+LABEL_KNF = 'a block that cannot be delivered (its handle points beyond the end of the file, the file lost its tail) is reported as "key not found" instead of an error: the read falls through to older tables'
+
+
 def o13_3_block_cache(mir, tier):
     """Two tables with cache partition ids p1, p2 share one block cache (contract: a map from BlockCacheKey to block reader, keys
     compared field by field).  Table 1 reads the block at offset o1, then table 2 reads the block at offset o2 (fill_cache free
@@ -45,6 +48,9 @@ def o13_3_block_cache(mir, tier):
             return [(None, Enum('Ok', ({'block_of': fv.get('file') if isinstance(fv, dict) else '?', 'at': se.deref(env, h)[hf.index('offset')]},)), st)]
         P[r'(?:table::)?Table::get_data_block_reader_from_disk'] = disk
         P[r'<Box<dyn ReadonlyRandomAccessFile> as Deref>::deref'] = lib.ident
+        from z3 import BitVec as _BV
+        P[r'<dyn ReadonlyRandomAccessFile as ReadonlyRandomAccessFile>::len'] = lambda se, env, pc, f: lib.one(env, Enum('Ok', (_BV('file_length', 64),)))         # any length (a file that lost its tail included)
+        P[r'BlockHandle::get_size'] = lambda se, env, pc, h: lib.one(env, se.deref(env, h)[hf.index('size')])
         P[r'<Result<.*> as FromResidual<Result<Infallible, .*>>>::from_residual'] = lambda se, env, pc, r: lib.one(env, r)
         ex = Exec(mir, S, loop_bound=4, opaque_calls_ok=True)
         def blk(r):
@@ -54,6 +60,12 @@ def o13_3_block_cache(mir, tier):
             d1 = env1['$state']['disk_reads']
             def second(r2, env2, pc2):
                 b1, b2 = blk(r1), blk(r2)
+                for r_ in (r1, r2):
+                    if isinstance(r_, Enum) and r_.tag == 'Err' and isinstance(r_.fields[0], Enum) and r_.fields[0].tag == 'KeyNotFound':
+                        ex.record_formula(LABEL_KNF, pc2, BoolVal(True))
+                        if not any(v['label'] == LABEL_KNF for v in res.violations):
+                            res.violations.append({'label': LABEL_KNF, 'same_table': same_table, 'replay': ['truncated_table_read']})
+                        return
                 if not (isinstance(b1, dict) and isinstance(b2, dict)): raise Inconclusive('block values %r %r; opaque calls: %s' % (b1, b2, sorted(ex.opaque_calls)))
                 want2 = 'table1' if same_table else 'table2'
                 posts = [('a block read fails although the cache and the disk read succeeded', BoolVal(b1 is not None and b2 is not None))]
@@ -90,6 +102,9 @@ def o13_3_block_cache(mir, tier):
 def o13_3_confirm(v, out):
     """Native: two tables (one key each, so both have their only data block at offset 0) in one database with the default block
     cache; both keys are read twice; compared with the reference model of the scenario."""
+    if v['replay'][0] == 'truncated_table_read':
+        if out.get('_rc') != 0: return (True, 'native run panicked / failed: %s' % out.get('_stderr', '')[-300:])
+        return (out.get('stale', '0') != '0', 'native (disk file system): the newest table loses three quarters of its bytes while it is open; %s of %s keys then read their OLDER value or \'not found\' instead of an error (errors: %s)' % (out.get('stale'), out.get('keys'), out.get('errors')))
     if v['replay'][0] == 'block_cache_collision':
         if out.get('_rc') != 0: return (True, 'native run panicked: %s' % out.get('_stderr', '')[-200:])
         return (out.get('table1_m') != 'from-table-1' or out.get('table2_m') != 'from-table-2', 'native (%s): table 1 answers %s, table 2 answers %s' % (out.get('setup'), out.get('table1_m'), out.get('table2_m')))
